@@ -94,3 +94,13 @@ Theorem c04_dead_end_at_intermediate_table : forall noise e s1 s2 a b,
   In (show_vtx a ++ ">" ++ show_vtx b)%string (script_pairs e false [] [r_stmt noise s1; r_stmt noise s2]).
 Proof. exact dead_end_two. Qed.
 Print Assumptions c04_dead_end_at_intermediate_table.
+
+(** ... extended to scripts that also contain UNION statements (Tree/ScriptExactUnion.v): the holder of a UNION of two plain
+    SELECTs satisfies the hypotheses of the composition theorem and its column edges are the specified flows *)
+From SV Require Import Tree.LemmaB5b Tree.LemmaB5b2 Tree.ScriptExactUnion.
+
+Theorem c04_script_exact_on_core_with_unions : forall noise e ss,
+  noise_ok noise = true -> env_ok e = true -> Forall core_stmt_u ss ->
+  script_pairs e false [] (map (r_stmt noise) ss) = spec_script_pairs (e_cfg e) ss.
+Proof. exact script_exact_on_core_union. Qed.
+Print Assumptions c04_script_exact_on_core_with_unions.
